@@ -508,6 +508,17 @@ func (s *Stage) Recover() {
 			}
 			base := strings.TrimSuffix(path, compExt)
 			if _, err = os.Stat(base + waitExt); !os.IsNotExist(err) {
+				// A held file was validated before the restart, but the first
+				// part of a newer version of the same name rewrites the
+				// companion beside it.  Never put a body away (and log it)
+				// under a hash it was not checked against.
+				if hash, hashErr := fileutil.FileMD5(base + waitExt); hashErr != nil || hash != cmp.Hash {
+					s.logError("Removing held file that does not match its companion:",
+						base+waitExt, cmp.Hash)
+					os.Remove(base + waitExt)
+				}
+			}
+			if _, err = os.Stat(base + waitExt); !os.IsNotExist(err) {
 				// .wait
 				s.logDebug("Found ready to finalize:", cmp.Name)
 				finalize = append(finalize, cmp)
